@@ -338,15 +338,18 @@ def _formatSystem(event: LogEvent) -> str:
     system = cast(Optional[str], event.get("log_system", None))
     if system is None:
         level = cast(Optional[NamedConstant], event.get("log_level", None))
-        if level is None:
-            levelName = "-"
-        else:
-            levelName = level.name
+        try:
+            if level is None:
+                levelName = "-"
+            else:
+                levelName = level.name
 
-        system = "{namespace}#{level}".format(
-            namespace=cast(str, event.get("log_namespace", "-")),
-            level=levelName,
-        )
+            system = "{namespace}#{level}".format(
+                namespace=cast(str, event.get("log_namespace", "-")),
+                level=levelName,
+            )
+        except Exception:
+            system = "UNFORMATTABLE"
     else:
         try:
             system = str(system)
@@ -408,7 +411,12 @@ def eventAsText(
 
     timeStamp = ""
     if includeTimestamp:
-        timeStamp = "".join([formatTime(cast(float, event.get("log_time", None))), " "])
+        try:
+            timeText = formatTime(cast(float, event.get("log_time", None)))
+        except Exception:
+            # A time stamp that is not a representable number.
+            timeText = "-"
+        timeStamp = "".join([timeText, " "])
 
     system = ""
     if includeSystem:
